@@ -38,9 +38,9 @@ def gen_func(rng, wrong_p=0.15, explicit_p=0.5):
     for _ in range(rng.randint(1, 3)):
         toks.append("B:" + ident("B", True))
         for _ in range(rng.randint(0, 4)):
-            k = rng.choice(["V", "V", "S", "C", "CV"])
-            toks.append(k if k in ("S", "C") else k + ":" + ident(k, False))
-        t = rng.choice(["R", "R", "I", "IV"])
+            k = rng.choice(["V", "V", "S", "C", "CF", "CV"])
+            toks.append(k if k in ("S", "C", "CF") else k + ":" + ident(k, False))
+        t = rng.choice(["R", "R", "I", "IV", "IVF"])
         toks.append(t if t != "I" else "I:" + ident("I", False))
     return toks
 
